@@ -48,6 +48,7 @@ type Recorder struct {
 	gates   map[string]chan struct{}
 	aborted map[string]bool
 	hit     map[string]chan struct{}
+	ctrl    *controller
 }
 
 func NewRecorder() *Recorder {
@@ -135,12 +136,95 @@ func (l *trackedListener) Accept() (net.Conn, error) {
 	l.conns = append(l.conns, tc)
 	l.mu.Unlock()
 	l.rec.emit(map[string]any{"op": "accept", "c": id})
+	if ct := l.rec.ctrl; ct != nil {
+		ct.park("accept:"+id, "accept") // Accept has returned; the accept loop goes on (and starts the connection goroutine) when the scenario says so
+	}
 	return tc, nil
 }
 
 func (l *trackedListener) Close() error {
 	l.rec.emit(map[string]any{"op": "ln_close"})
 	return l.Listener.Close()
+}
+
+// controller: a cooperative scheduler over the instrumentation points.  While it is on, every goroutine of the proxy that reaches a
+// hook parks there until the scenario releases it, so that the order of the proxy's steps - across connection goroutines, the accept
+// loop and the shutdown watcher - is chosen by the scenario (guided by a behaviour TLC generated from ProxyServer.tla).
+type controller struct {
+	mu       sync.Mutex
+	parked   map[string]chan struct{}
+	at       map[string]string
+	arrivals chan string
+	off      bool
+}
+
+func newController() *controller {
+	return &controller{parked: map[string]chan struct{}{}, at: map[string]string{}, arrivals: make(chan string, 1024)}
+}
+
+func (c *controller) park(actor, point string) {
+	c.mu.Lock()
+	if c.off {
+		c.mu.Unlock()
+		return
+	}
+	ch := make(chan struct{})
+	c.parked[actor], c.at[actor] = ch, point
+	c.mu.Unlock()
+	select {
+	case c.arrivals <- actor:
+	default:
+	}
+	select {
+	case <-ch:
+	case <-time.After(10 * time.Second): // never leave the proxy hanging on a harness mistake
+	}
+}
+
+func (c *controller) where(actor string) (string, bool) {
+	c.mu.Lock()
+	defer c.mu.Unlock()
+	p, ok := c.at[actor]
+	return p, ok
+}
+
+func (c *controller) release(actor string) bool {
+	c.mu.Lock()
+	ch, ok := c.parked[actor]
+	if ok {
+		delete(c.parked, actor)
+		delete(c.at, actor)
+	}
+	c.mu.Unlock()
+	if ok {
+		close(ch)
+	}
+	return ok
+}
+
+func (c *controller) releaseAll() {
+	c.mu.Lock()
+	c.off = true
+	for a, ch := range c.parked {
+		close(ch)
+		delete(c.parked, a)
+		delete(c.at, a)
+	}
+	c.mu.Unlock()
+}
+
+// settle waits until no goroutine has arrived at a hook for `quiet` (at most `max`)
+func (c *controller) settle(quiet, max time.Duration) {
+	deadline := time.After(max)
+	for {
+		select {
+		case <-c.arrivals:
+		case <-time.After(quiet):
+			return
+		case <-deadline:
+			return
+		}
+	}
 }
 
 var rec *Recorder // current scenario's recorder (the hook sink is process-wide)
@@ -216,6 +300,22 @@ func sink(point string, args ...any) {
 		r.emit(map[string]any{"op": "shutdown_begin"})
 	case "proxyserver.shutdown.h1done":
 		r.emit(map[string]any{"op": "h1_shutdown_done"})
+	default:
+		return
+	}
+	if ct := r.ctrl; ct != nil {
+		actor := cid
+		switch point {
+		case "proxyserver.shutdown.begin", "proxyserver.shutdown.h1done":
+			actor = "watcher"
+		case "proxyserver.counted":
+			r.mu.Lock()
+			actor = r.byGo[g]
+			r.mu.Unlock()
+		}
+		if actor != "" {
+			ct.park(actor, point)
+		}
 	}
 }
 
@@ -277,8 +377,17 @@ func (s *Scenario) register(port int, kind string) string {
 	return id
 }
 
+func startScenarioCtrl(name, family string, o stack.Options) *Scenario {
+	return startScenarioWith(name, family, o, newController())
+}
+
 func startScenario(name, family string, o stack.Options) *Scenario {
+	return startScenarioWith(name, family, o, nil)
+}
+
+func startScenarioWith(name, family string, o stack.Options, ct *controller) *Scenario {
 	s := &Scenario{Name: name, Family: family, r: NewRecorder(), kinds: map[string]string{}, opts: o, Latency: map[string]float64{}}
+	s.r.ctrl = ct
 	recMu.Lock()
 	rec = s.r
 	recMu.Unlock()
